@@ -185,8 +185,23 @@ def _stage_case(res, rng, ident):
     fm = sorted(refseq_of(ga, m) for m in ga.mutations if ga.is_functional(m))
     if fm and rng.random() < 0.3:
         extra[rng.choice(fm)] = rng.randint(2, depth)
+    # an uncatalogued exonic substitution (given in RefSeq terms) seen in one copy's worth of reads, refined with
+    # the `novel` switch: its inferred effect must not depend on the strand the build puts the gene on
+    novel_r = None
+    if rng.random() < 0.25:
+        comp = {"A": "T", "C": "G", "G": "C", "T": "A"}
+        cat_r = {ga.chr_to_ref.get(p) for p, _ in ga.mutations} | {gb.chr_to_ref.get(p) for p, _ in gb.mutations}
+        cands = [r for (s_, e_) in ga.exons for r in range(s_, e_)
+                 if r in ga.ref_to_chr and r in gb.ref_to_chr and not any((r + d) in cat_r for d in (-1, 0, 1))]
+        if cands:
+            r = rng.choice(cands)
+            pa = ga.ref_to_chr[r]
+            ref_r = ga[pa] if ga.strand > 0 else comp.get(ga[pa], "N")
+            if ref_r in comp:
+                novel_r = (r, ref_r, rng.choice([b for b in "ACGT" if b != ref_r]))
     desc = {"db": name, "strands": [ga.strand, gb.strand], "copies": [list(c) for c in copies], "depth": depth,
-            "eps": eps, "gap": gap, "noise_seed": seed, "extra": extra, "ident": ident}
+            "eps": eps, "gap": gap, "noise_seed": seed, "extra": extra, "ident": ident,
+            "novel_refseq_variant": list(novel_r) if novel_r else None}
     runs = []
     sigs = [collections.Counter(evidence(g, copies, depth, 0, seed, extra)[1].values()) for g in (ga, gb)]
     if sigs[0] != sigs[1]:
@@ -196,6 +211,13 @@ def _stage_case(res, rng, ident):
         desc["eps"] = 0
     for g in (ga, gb):
         counts, sig = evidence(g, copies, depth, eps, seed, extra)
+        if novel_r:
+            comp = {"A": "T", "C": "G", "G": "C", "T": "A"}
+            p_ = g.ref_to_chr[novel_r[0]]
+            rb, ab = (novel_r[1], novel_r[2]) if g.strand > 0 else (comp[novel_r[1]], comp[novel_r[2]])
+            ncov = sum(1 for c in copies if g.has_coverage(c[0], p_))
+            if ncov and g[p_] == rb and p_ not in counts:
+                counts[p_] = {"_": depth * (ncov - 1), f"{rb}>{ab}": depth}
         prof = Profile("test", gap=gap)
         cov = tables.make_coverage(g, counts, profile=prof)
         cn = CNSolution(g, 0, tables.cn_list(g, copies))
@@ -220,7 +242,7 @@ def _stage_case(res, rng, ident):
         if majors and len(majors) <= 4:
             lpmon.reset()
             with c04.Capture() as cap:
-                minors = estimate_minor(g, cov, majors, "any")
+                minors = estimate_minor(g, cov, majors, "any", novel=bool(novel_r))
             per_major = {}
             for call in cap.calls:
                 ma = c04.model_assignments(call)
@@ -233,6 +255,16 @@ def _stage_case(res, rng, ident):
             out["minor"] = per_major
         runs.append(out)
     a, b = runs
+    # shipped databases: the per-build region tables put some RefSeq bases into different regions (UGT1A1's hg19
+    # table has exon 1 31 kb upstream of where the RefSeq maps it); uncatalogued variants are kept or dropped by
+    # region, so with the `novel` switch the refinement then depends on the build
+    region_mech = None
+    if novel_r:
+        ra = ga.region_at(ga.ref_to_chr[novel_r[0]])
+        rb = gb.region_at(gb.ref_to_chr[novel_r[0]])
+        if ra != rb and not name.startswith("gen"):
+            region_mech = "shipped-region-tables-differ-between-builds"
+            desc["region_of_novel_variant"] = [str(ra), str(rb)]
     same_sites = sigs[0] == sigs[1]
     if not same_sites:
         res.count("cases_with_strand_dependent_site_grouping")
@@ -256,7 +288,8 @@ def _stage_case(res, rng, ident):
             band = madd * max(na, nb) / 1e6 * 12 + 1e-6
             res.check("minor_scores_equal", abs(sa - sb) <= band,
                       "minor-stage optimum (tie-breaker removed) differs between builds",
-                      mech=mech if abs(sa - sb) > band else None, first=sa, second=sb, major=str(mk), **desc)
+                      mech=(region_mech or mech) if abs(sa - sb) > band else None, first=sa, second=sb,
+                      major=str(mk), **desc)
             if abs(sa - sb) <= band:
                 res.check("minor_solutions_equal", la == lb,
                           "same optimum, but the reported assignment of added / lost variants differs between builds",
